@@ -728,7 +728,7 @@ def run_error_lines(case):
     app = build_sink_app()
     sink_request(app, 4)  # warm up
     fns = [lambda i=i: err_request(app, i) for i in reqs]
-    sched = Scheduler(fns, case['plan'], trace_prefixes=ERR_FILES)
+    sched = Scheduler(fns, case['plan'], trace_prefixes=ERR_FILES[:1] if case.get('files') == 'serializer' else ERR_FILES)
     results = sched.run()
     ctx = 'requests=%r plan=%r switches=%r' % ([ERR_REQS[i][:1] + ERR_REQS[i][2:] for i in reqs], case['plan'], sched.switch_log[:8])
     for k, i in enumerate(reqs):
@@ -769,6 +769,19 @@ class ErrorLines(Suite):
         for k1 in range(0, n, step):
             for k2 in range(1, n, step):
                 yield {'reqs': [0, 1], 'plan': [[0, k1], [1, k2]], 'env_case': True}
+        # the COMPLETE double pre-emption grid with the yield points inside app_helpers.py only (the default error
+        # serializer: negotiation and rendering): A is stopped at k1, B at k2, A finishes, B finishes
+        if 'h' not in _ERR_POINTS:
+            app = build_sink_app()
+            sink_request(app, 4)
+            sched = Scheduler([lambda: err_request(app, 0)], [[0, 10 ** 6]], trace_prefixes=ERR_FILES[:1])
+            sched.run()
+            _ERR_POINTS['h'] = sched.points[0]
+        h = _ERR_POINTS['h']
+        for a, b in ([(0, 3)] if tier == 'quick' else [(0, 3), (0, 1), (3, 0)]):
+            for k1 in range(0, h + 1):
+                for k2 in range(0, h + 1):
+                    yield {'reqs': [a, b], 'plan': [[0, k1], [1, k2]], 'files': 'serializer', 'env_case': True}
 
     def run(self, case):
         return run_error_lines(case)
